@@ -60,7 +60,7 @@ def gen(rnd: random.Random, opts: dict) -> Design:
         nonex = rnd.random() < (0.45 if not has_in else 0.3) * opts.get("nonex_weight", 1.0)
         comb = None
         if nonex and has_in:
-            comb = rnd.choice(["or", "sum", "default"])
+            comb = rnd.choice(["or", "sum", "default", "sum_plus_count", "sum_plus_count"])
         D.meth.append(dict(has_in=has_in, nonex=nonex, validate=None, combiner=comb, single_caller=False))
     D.bodies, D.sites, D.wits = {}, [], []
     D.budget = opts.get("budget", 24)
@@ -168,6 +168,7 @@ def gen(rnd: random.Random, opts: dict) -> Design:
         order.append(mkbody("m", j, ((("body", "m", j), 0),), 0, j + 1))
     rnd.shuffle(order)
     D.order = order
+    D.nmod = rnd.choice([1, 2, 2, 3])  # the top-level bodies are spread over this many elaboratables, each with its own TModule
     D.deford = {}
 
     def pre(b):
@@ -486,7 +487,17 @@ class Emit(Elaboratable):
         return target
 
     def elaborate(self, platform):
-        m = TModule()
+        D = self.D
+        top = TModule()
+        order = list(D.order)
+        nmod = max(1, min(getattr(D, "nmod", 1), len(order)))
+        size = -(-len(order) // nmod)
+        chunks = [order[i:i + size] for i in range(0, len(order), size)]
+        for k, chunk in enumerate(chunks):
+            top.submodules[f"part{k}"] = _Part(self, chunk, last=(k == len(chunks) - 1))
+        return top
+
+    def emit_bodies(self, m, bodies, last):
         D = self.D
 
         def ready_of(b):
@@ -569,6 +580,14 @@ class Emit(Elaboratable):
                         acc = (acc + Mux(runs[i], a.x, 0))[:4]
                     return {"x": acc}
                 return comb
+            if md["combiner"] == "sum_plus_count":
+                # not the identity on a single argument: the combiner must be applied even when the method has one call site
+                def comb(mm, args, runs):
+                    acc = C(0, 4)
+                    for i, a in enumerate(args):
+                        acc = (acc + Mux(runs[i], a.x + 1, 0))[:4]
+                    return {"x": acc}
+                return comb
             return None
 
         def body(b):
@@ -601,12 +620,24 @@ class Emit(Elaboratable):
                     m.d.top_comb += out.eq((arg.x + b.idx + 1) if md["has_in"] else (b.idx + 1))
                     stmts(b, b.stmts, arg)
 
-        for b in D.order:
+        for b in bodies:
             body(b)
-        for a, b, pr in D.confl:
-            self.objs[a].add_conflict(self.objs[b], pr)
-        for a, b, rd in D.sb:
-            self.objs[a].schedule_before(self.objs[b], ready_dependent=rd)
+        if last:
+            for a, b, pr in D.confl:
+                self.objs[a].add_conflict(self.objs[b], pr)
+            for a, b, rd in D.sb:
+                self.objs[a].schedule_before(self.objs[b], ready_dependent=rd)
+
+
+class _Part(Elaboratable):
+    """One of the elaboratables a generated design is spread over; each has its own TModule (own control-path module id)."""
+
+    def __init__(self, emit, bodies, last):
+        self.emit, self.bodies, self.last = emit, bodies, last
+
+    def elaborate(self, platform):
+        m = TModule()
+        self.emit.emit_bodies(m, self.bodies, self.last)
         return m
 
 
@@ -841,6 +872,10 @@ def run_design(rec: Rec, D, A, rnd: random.Random, case: dict, sched: str = "eag
                                 exp |= a_
                         elif md["combiner"] == "sum":
                             exp = sum(args) & 15
+                        elif md["combiner"] == "sum_plus_count":
+                            exp = (sum(args) + len(args)) & 15
+                            if sum(1 for s in D.sites if s.callee == j) == 1:
+                                rec.count("non_identity_combiner_with_single_call_site_cycles")
                         else:
                             exp = args[0] if nact == 1 else None  # default one-hot combiner: defined for a single active call only
                         if exp is not None:
